@@ -54,16 +54,19 @@ CHAN_RO_METHODS = {
 }
 # calls that take `&mut EnforcementState` but only read it (checked by hand: validator.rs)
 CHAN_RO_MUTREF = ["get_current_holder_commitment_info("]
+# the node state is reached through a guard variable (`state`, `node_state`) or directly (`self.get_state().x`)
+ST = r"(?:\b(?:node_)?state|get_state\(\))"
 NODE_MUT = [
-    r"\bstate\.(allowlist|invoices)\.(insert|remove|clear|retain)\(",
-    r"\bstate\.velocity_control\.(insert|update_spec)\(",
-    r"\b(node_)?state\.dbid_high_water_mark\s*=[^=]",
-    r"\bstate\.prune_\w+\(",
+    ST + r"\.(allowlist|invoices)\.(insert|remove|clear|retain|extend|append)\(",
+    ST + r"\.(allowlist|invoices)\s*=[^=]",
+    ST + r"\.velocity_control\.(insert|update_spec|clear)\(",
+    ST + r"\.dbid_high_water_mark\s*=[^=]",
+    ST + r"\.prune_\w+\(",
 ]
-ISSUED_MUT = [r"\bstate\.issued_invoices\.(insert|remove|clear|retain)\("]
-FEE_MUT = [r"\bstate\.fee_velocity_control\.(insert|update_spec)\("]
+ISSUED_MUT = [ST + r"\.issued_invoices\.(insert|remove|clear|retain|extend|append)\("]
+FEE_MUT = [ST + r"\.fee_velocity_control\.(insert|update_spec|clear)\("]
 LEDGER_MUT = [
-    r"\bstate\.apply_payments\(", r"\bstate\.payments\.(insert|remove|clear|entry|retain)\(", r"\bstate\.htlc_fulfilled\(",
+    ST + r"\.apply_payments\(", ST + r"\.payments\.(insert|remove|clear|entry|retain)\(", ST + r"\.htlc_fulfilled\(",
 ]
 NODE_RO_METHODS = {
     "validate_payments", "summary", "len", "get", "contains_key", "iter", "clone", "velocity", "is_empty", "values",
@@ -160,6 +163,187 @@ def shape(body, fname):
     return evs
 
 
+# ---- second pass: calls inlined, block structure, handler arms ------------------------------------
+
+HANDLER = "vls-protocol-signer/src/handler.rs"
+# receivers through which a function of channel.rs / node.rs / handler.rs is called
+RECEIVER = r"(?:\b(?:self|Self|arc_self|node|chan|channel|base|Node|Channel)(?:\.node(?:\(\))?)?\s*(?:\.|::)\s*|(?<![\w.:]))"
+NOT_CALLS = {"new", "from", "into", "clone", "map", "ok", "get", "len", "iter", "insert", "remove", "handle", "do_handle",
+             "node", "commit", "with_persist", "lock", "unwrap", "expect", "Some", "Ok", "Err", "Box", "format", "min", "max"}
+
+
+def norm(src):
+    """method chains broken over lines: no whitespace in front of a `.`"""
+    return re.sub(r"\s+\.(?=[A-Za-z_])", ".", src)
+
+
+def stmts_with_paths(body):
+    """[(statement text, block path, id of the block closed just in front of the statement or None)]: statements
+    end at `;`, `{`, `}`; the text in front of a `{` belongs to the enclosing block; every `{` opens a new block"""
+    body = re.sub(r'"(?:\\.|[^"\\])*"', '""', body)
+    out, path, cur, ctr, closed = [], (), [], 0, None
+    for ch in body:
+        if ch in ";{}":
+            txt = "".join(cur)
+            if txt.strip():
+                out.append((txt, path, closed))
+            if txt.strip() or ch != "}":
+                closed = None
+            cur = []
+            if ch == "{":
+                ctr += 1
+                path = path + (ctr,)
+            elif ch == "}":
+                closed = path[-1] if path else None
+                path = path[:-1]
+        else:
+            cur.append(ch)
+    txt = "".join(cur)
+    if txt.strip():
+        out.append((txt, path, closed))
+    return out
+
+
+def raw_shape(body, fname, universe):
+    """events with block paths; a statement that calls functions of the universe and is not classified by the
+    patterns is a placeholder ("calls", [names], fallible, swallowed): `fallible` = the statement itself can
+    refuse (`?`, ..), `swallowed` = the caller visibly discards the callee's error"""
+    evs = []
+    for stmt, path, closed in stmts_with_paths(norm(body)):
+        if re.fullmatch(r"[\s)]*\)\s*\?\s*", stmt) and closed is not None and \
+                any(p[:len(path) + 1] == path + (closed,) for _, p in evs):
+            continue        # `})?` behind a closure that produced events: propagates their refusal, none of its own
+        # match patterns `Ok(x) =>` / `Err(e) =>` are not `Err(..)` values: only what follows the arrow counts
+        stmt = re.sub(r"(?m)^\s*(?:Ok|Err)\s*\((?:[^()]|\((?:[^()]|\([^()]*\))*\))*\)\s*=>", " ", stmt)
+        if not stmt.strip():
+            continue
+        own = classify(stmt, fname)
+        if own and own[0][0] in ("mutate", "persist"):
+            evs.append((own[0], path))
+            continue
+        calls = []
+        for m in re.finditer(RECEIVER + r"(\w+)\s*\(", stmt):
+            n = m.group(1)
+            if n in universe and n not in NOT_CALLS and n != fname and n not in EXCLUDE:
+                calls.append((m.start(), n))
+        swallowed = not own and bool(re.search(r"\blet\s+_\s*=|\.ok\(\)|\.unwrap_or", stmt))
+        if calls:
+            evs.append((("calls", [n for _, n in sorted(calls)], bool(own), swallowed), path))
+        elif own:
+            evs.append((own[0], path))
+    return evs
+
+
+def expand(name, raws, memo, stack=()):
+    """events of a function with every call of a state-changing function replaced by the callee's events (its
+    refusing statements included unless the caller discards the error).  A statement that only calls functions
+    without effects is one check if it can refuse (itself, or because a callee in it has refusing statements).
+    Inlined events carry the call's block path and an instance tag."""
+    if name in memo:
+        return memo[name]
+    if name in stack:
+        raise ExtractError("recursive request functions: " + " -> ".join(stack + (name,)))
+    out, inst = [], 0
+    for ev, path in raws[name]:
+        if ev[0] != "calls":
+            out.append((ev, path, None))
+            continue
+        _, names, fallible, swallowed = ev
+        callees = [expand(n, raws, memo, stack + (name,)) for n in names]
+        effectful = [c for c in callees if any(e[0] in ("mutate", "persist") for e, _, _ in c)]
+        if not effectful:
+            if not swallowed and (fallible or any(e[0] == "check" or (e[0] == "mutate" and e[2]) for c in callees for e, _, _ in c)):
+                out.append((("check", None, False), path, None))
+            continue
+        for callee in effectful:
+            inst += 1
+            clean = not py_left_dirty([e for e, _, _ in callee])
+            for e, _, _ in callee:
+                if swallowed and e[0] == "check":
+                    continue
+                if swallowed and e[0] == "mutate" and e[2]:
+                    e = ("mutate", e[1], False)
+                out.append((e, path, (inst, clean)))
+    memo[name] = out
+    return out
+
+
+PERSISTED_BY = {"chan": "chan", "node": "node", "tracker": "tracker", "map": "chan", "monitor": "tracker"}
+
+
+def py_left_dirty(evs):
+    """mirror of ReqShape.leftDirty (Lean): components with a persist call of their own, mutated and not written afterwards"""
+    dirty = set()
+    for e in evs:
+        if e[0] == "mutate":
+            dirty.add(e[1])
+        elif e[0] == "persist":
+            dirty = {c for c in dirty if PERSISTED_BY.get(c) != e[1]}
+    return sorted(c for c in dirty if c in PERSISTED_BY)
+
+
+def conditional_persists(evs):
+    """own persist calls that sit in a block which does not enclose an earlier mutation they cover: control can
+    pass the mutation and reach the end of the function without passing the call.  Events inlined from a callee
+    that leaves nothing dirty are a unit of their own (analysed in the callee's row)."""
+    out = []
+    for i, (e, path, tag) in enumerate(evs):
+        if e[0] != "persist" or tag is not None:
+            continue
+        for (m, mp, mtag) in evs[:i]:
+            if m[0] != "mutate" or PERSISTED_BY.get(m[1]) != e[1] or (mtag is not None and mtag[1]):
+                continue
+            if mp[:len(path)] != path:
+                later = [1 for (q, qp, qt) in evs[i + 1:] if q[0] == "persist" and q[1] == e[1] and qt is None and mp[:len(qp)] == qp]
+                if not later and (e[1], m[1]) not in out:
+                    out.append((e[1], m[1]))
+    return out
+
+
+def handler_arms(src):
+    """[(handler tag, message name, arm text)] of the `do_handle` match of RootHandler and ChannelHandler"""
+    arms = []
+    for tag, impl in (("root", r"impl\s+Handler\s+for\s+RootHandler\s*\{"), ("chan", r"impl\s+Handler\s+for\s+ChannelHandler\s*\{")):
+        m = re.search(impl, src)
+        if not m:
+            raise ExtractError("handler.rs: impl not found: " + impl)
+        fm = re.search(r"\bfn\s+do_handle\s*\(", src[m.end():])
+        if not fm:
+            raise ExtractError("handler.rs: do_handle not found in " + impl)
+        start = m.end() + fm.end()
+        mm = re.search(r"\bmatch\s+msg\s*\{", src[start:])
+        if not mm:
+            raise ExtractError("handler.rs: `match msg` not found in do_handle of " + tag)
+        i = start + mm.end() - 1
+        depth, j = 0, i
+        while j < len(src):
+            if src[j] == "{":
+                depth += 1
+            elif src[j] == "}":
+                depth -= 1
+                if depth == 0:
+                    break
+            j += 1
+        body = src[i + 1:j]
+        # arm starts at nesting depth 0 of the match body
+        starts, depth = [], 0
+        for k, ch in enumerate(body):
+            if ch in "{([":
+                depth += 1
+            elif ch in "})]":
+                depth -= 1
+            elif depth == 0 and body.startswith("Message::", k) and (k == 0 or not (body[k - 1].isalnum() or body[k - 1] in "_:")):
+                am = re.match(r"Message::(\w+)\s*(?:\([^)]*\))?\s*=>", body[k:])
+                if am:
+                    starts.append((k, am.group(1), k + am.end()))
+        if len(starts) < 10:
+            raise ExtractError("handler.rs: too few arms found in do_handle of " + tag)
+        for n, (k, name, e) in enumerate(starts):
+            end = starts[n + 1][0] if n + 1 < len(starts) else len(body)
+            arms.append((tag, name, body[e:end]))
+    return arms
+
+
 def lean_ev(e):
     k, c, f = e
     if k == "check":
@@ -211,17 +395,81 @@ def extract(repo):
     for _, n, e in rows:
         lean.append(f"  | .{n} => [" + ", ".join(lean_ev(x) for x in e) + "]")
     lean.append("")
+    # ---- second pass ------------------------------------------------------------------------------
+    universe = {}
+    row_names = {n for _, n, _ in rows}
+    for tag, rel in FILES + [("handler", HANDLER)]:
+        src = strip_comments(read(repo, rel))
+        cut = src.find("#[cfg(test)]\nmod tests")
+        if cut > 0:
+            src = src[:cut]
+        for name, body in functions(src):
+            if name in EXCLUDE or name in NOT_CALLS:
+                continue
+            direct = any(k in ("mutate", "persist") for k, _, _ in shape(body, name)) if tag != "handler" else False
+            # a name defined more than once: the definition with effects of its own is the one the table lists
+            if name not in universe or (name in row_names and direct):
+                universe[name] = (tag, body)
+    hsrc = strip_comments(read(repo, HANDLER))
+    arms = handler_arms(hsrc)
+    raws = {n: raw_shape(b, n, universe) for n, (_, b) in universe.items()}
+    arm_names = []
+    for tag, msg, text in arms:
+        an = f"{tag}_{msg}"
+        if an in raws:
+            raise ExtractError("handler arm listed twice: " + an)
+        raws[an] = raw_shape(text, an, universe)
+        arm_names.append(an)
+    memo = {}
+    full = {n: expand(n, raws, memo) for n in raws}
+    flat = lambda evs: [e for e, _, _ in evs]
+    lean.append("/-- the same functions with every call of another state-changing function of channel.rs / node.rs replaced")
+    lean.append("    by the callee's events (its refusing statements are kept when the call's error is propagated) -/")
+    lean.append("def evsFull : Fn → List Ev")
+    for _, n, e in rows:
+        lean.append(f"  | .{n} => [" + ", ".join(lean_ev(x) for x in flat(full[n])) + "]")
+    lean.append("")
+    live_arms = [a for a in arm_names if any(e[0] in ("mutate", "persist") for e in flat(full[a]))]
+    for must in ("root_AddBlock", "root_RemoveBlock", "root_NewChannel", "root_ForgetChannel", "chan_ValidateCommitmentTx2",
+                 "chan_RevokeCommitmentTx", "chan_SignRemoteCommitmentTx2", "chan_ValidateRevocation", "chan_SetupChannel"):
+        if must not in live_arms:
+            raise ExtractError("handler arm not found or without effect (renamed?): " + must)
+    lean.append("/-- the arms of `do_handle` (vls-protocol-signer/src/handler.rs; `root_` = RootHandler, `chan_` = ChannelHandler)")
+    lean.append("    that change state: through a state-changing function of vls-core or on the tracker / persister directly -/")
+    lean.append("inductive Arm")
+    lean += ["  | " + " | ".join(live_arms), "  deriving DecidableEq, Repr", ""]
+    lean.append("def Arm.all : List Arm := [" + ", ".join("." + n for n in live_arms) + "]")
+    lean.append("")
+    lean.append("/-- events of an arm: its own statements and, at the call site, the events of the vls-core functions it calls -/")
+    lean.append("def armEvs : Arm → List Ev")
+    for a in live_arms:
+        lean.append(f"  | .{a} => [" + ", ".join(lean_ev(x) for x in flat(full[a])) + "]")
+    lean.append("")
+    cond_fn = [(n, conditional_persists(full[n])) for _, n, _ in rows]
+    cond_arm = [(a, conditional_persists(full[a])) for a in live_arms]
+    lean.append("/-- persist calls inside a block that does not enclose an earlier mutation they cover (persisted component,")
+    lean.append("    mutated component): the call can be skipped after the mutation was made -/")
+    lean.append("def condPersistFn : List (Fn × List (Comp × Comp)) := [" + ", ".join(
+        f"(.{n}, [" + ", ".join(f"(.{a}, .{b})" for a, b in c) + "])" for n, c in cond_fn if c) + "]")
+    lean.append("def condPersistArm : List (Arm × List (Comp × Comp)) := [" + ", ".join(
+        f"(.{n}, [" + ", ".join(f"(.{a}, .{b})" for a, b in c) + "])" for n, c in cond_arm if c) + "]")
+    lean.append("")
     lean.append("end VlsModel.Gen.ReqShape")
+    fmt = lambda e: " ".join(("C" if k == "check" else ("P:" + c if k == "persist" else "M:" + c + ("?" if f else ""))) for k, c, f in e)
+    arm_facts = {a: fmt(flat(full[a])) for a in live_arms}
     facts = {n: " ".join(("C" if k == "check" else ("P:" + c if k == "persist" else "M:" + c + ("?" if f else ""))) for k, c, f in e)
              for _, n, e in rows}
     obl10 = ["Gen.ReqShape: no check follows a mutation in any request function except at the listed, argued sites (theorem C10_gen_shape_table); tie to the frame theorem: C10_shape_frame"]
     obl11 = ["Gen.ReqShape: every mutation of a durable component (chan, node, tracker) is followed by its persist call (theorem C11_gen_shape_persist); tie: C11_shape_durable"]
     return {"ReqShape.lean": "\n".join(lean) + "\n"}, {
-        "C10": {"facts": {"request_shapes": facts}, "obligations": obl10},
-        "C11": {"facts": {"request_shapes": facts}, "obligations": obl11},
+        "C10": {"facts": {"request_shapes": facts, "handler_arm_shapes": arm_facts}, "obligations": obl10 + [
+            "Gen.ReqShape.armEvs / evsFull: late refusing statements of handler arms and of functions with inlined callees are exactly the listed, argued ones (theorems C10_gen_arm_table, C10_gen_shape_table_full)"]},
+        "C11": {"facts": {"request_shapes": facts, "handler_arm_shapes": arm_facts}, "obligations": obl11 + [
+            "Gen.ReqShape.armEvs / evsFull / condPersist*: no handler arm leaves a persisted component dirty, conditional persist calls are exactly the listed ones (theorems C11_gen_arm_persist, C11_gen_shape_persist_full, C11_gen_cond_persist)"]},
     }
 
 
 if __name__ == "__main__":
     out, info = extract("/repo")
-    print(out["ReqShape.lean"])
+    txt = out["ReqShape.lean"]
+    print(txt[txt.find("def evsFull"):])
